@@ -99,12 +99,23 @@ UpdateCore(o, a) == /\ a \in AttrDom(o) /\ OneFieldChanged(a, attr[o])
 Update(o, a) == /\ UpdateCore(o, a)
                 /\ Log([act |-> "Update", o |-> o, a |-> [u |-> a.u, g |-> a.g, c |-> a.c, m |-> a.m], res |-> "ok"])
 
+\* the application moved the unique key of a STORED object onto a key that another stored object owns and calls
+\* update_object: the unique index refuses it (KeyError).  The code gives the object up (it is no longer stored);
+\* what the property demands is only that lookups and scan still agree afterwards.
+UpdateRejectedCore(o, a) == /\ a \in AttrDom(o) /\ OneFieldChanged(a, attr[o])
+                            /\ o \in objs /\ ~UFree(o, a.u)
+                            /\ attr' = [attr EXCEPT ![o] = a]
+                            /\ objs' = objs \ {o}
+                            /\ idx' = Unfile(idx, o)
+UpdateRejected(o, a) == /\ UpdateRejectedCore(o, a)
+                        /\ Log([act |-> "Update", o |-> o, a |-> [u |-> a.u, g |-> a.g, c |-> a.c, m |-> a.m], res |-> "rejected"])
+
 ClearCore == objs # {} /\ objs' = {} /\ idx' = EmptyIdx /\ UNCHANGED attr
 Clear == /\ ClearCore
          /\ Log([act |-> "Clear", res |-> "ok"])
 
 Next == \/ \E o \in O : Add(o) \/ AddRejected(o) \/ AddAgain(o) \/ Remove(o) \/ RemoveAbsent(o)
-        \/ \E o \in O : \E a \in AttrDom(o) : Update(o, a)
+        \/ \E o \in O : \E a \in AttrDom(o) : Update(o, a) \/ UpdateRejected(o, a)
         \/ Clear
 
 Spec == Init /\ [][Next]_vars
